@@ -169,6 +169,7 @@ class guard:
 def execute(mod, case, ctx):
     """run one case with accounting; returns 'ok' | 'discard'; raises Violation"""
     ctx.begin()
+    case = json.loads(canonical(case))  # exactly what a replay file would contain
     try:
         mod.run_case(case, ctx)
     except Discard as d:
@@ -447,8 +448,10 @@ def run_check(pid, tier, a):
     seen = set()
     uniq = []
     for msg, rel in violations:
-        if rel not in seen:
+        key = msg[:60]
+        if rel not in seen and key not in seen:
             seen.add(rel)
+            seen.add(key)
             uniq.append((msg, rel))
     evidence = {
         "property_id": pid,
